@@ -508,7 +508,7 @@ func typedPayload(typ string, t *sim.Tape, rnd *sim.Rand) []byte {
 	claimed := uint32(cnt)
 	if t.Chance(50) {
 		claimed = []uint32{0x7fffffff, 0xffffffff, 0x40000000, 0x01000000, 3000000}[t.Draw(5)]
-	} else if t.Chance(50) {
+	} else if t.Chance(150) {
 		claimed = uint32(cnt + 1 + t.Draw(2)) // one or two more than there are
 	}
 	switch typ {
